@@ -25,7 +25,7 @@ type archetypeAccess struct {
 
 // GetEntity returns the entity at the given index
 func (a *archetypeAccess) GetEntity(index uint32) Entity {
-	return *(*Entity)(unsafe.Add(a.entityPointer, entitySize*index))
+	return *(*Entity)(unsafe.Add(a.entityPointer, uintptr(entitySize)*uintptr(index)))
 }
 
 // Get returns the component with the given ID at the given index
@@ -59,7 +59,7 @@ func (l *layout) Get(index uint32) unsafe.Pointer {
 	if l.pointer == nil {
 		return nil
 	}
-	return unsafe.Add(l.pointer, l.itemSize*index)
+	return unsafe.Add(l.pointer, uintptr(l.itemSize)*uintptr(index))
 }
 
 // archetype represents an ECS archetype
@@ -156,8 +156,8 @@ func (a *archetype) Remove(index uint32) bool {
 			if size == 0 {
 				continue
 			}
-			src := unsafe.Add(lay.pointer, old*size)
-			dst := unsafe.Add(lay.pointer, index*size)
+			src := unsafe.Add(lay.pointer, uintptr(old)*uintptr(size))
+			dst := unsafe.Add(lay.pointer, uintptr(index)*uintptr(size))
 			a.copy(src, dst, size)
 		}
 	}
@@ -184,7 +184,7 @@ func (a *archetype) Zero(index uint32, id ID) {
 	if size == 0 {
 		return
 	}
-	dst := unsafe.Add(lay.pointer, index*size)
+	dst := unsafe.Add(lay.pointer, uintptr(index)*uintptr(size))
 	a.copy(a.node.zeroPointer, dst, size)
 }
 
@@ -364,7 +364,7 @@ func (a *archetype) extend(by uint32) {
 
 // Adds an entity at the given index. Does not extend the entity buffer.
 func (a *archetype) addEntity(index uint32, entity *Entity) {
-	dst := unsafe.Add(a.entityPointer, entitySize*index)
+	dst := unsafe.Add(a.entityPointer, uintptr(entitySize)*uintptr(index))
 	src := unsafe.Pointer(entity)
 	a.copy(src, dst, entitySize)
 }
@@ -378,8 +378,8 @@ func (a *archetype) removeEntity(index uint32) bool {
 		return false
 	}
 
-	src := unsafe.Add(a.entityPointer, old*entitySize)
-	dst := unsafe.Add(a.entityPointer, index*entitySize)
+	src := unsafe.Add(a.entityPointer, uintptr(old)*uintptr(entitySize))
+	dst := unsafe.Add(a.entityPointer, uintptr(index)*uintptr(entitySize))
 	a.copy(src, dst, entitySize)
 
 	return true
